@@ -573,3 +573,170 @@ Theorem contained_anywhere : forall c k s n p,
   wf_pkg c = true -> wf_tmp c = true -> guard_F10b c = true ->
   In p (touched s (firstn n (plan c k s))) -> sunder (root c) p = true -> allowed c p = true.
 Proof. intros c k s n p Hwf Hw Hg Hin. apply (contained c k s p Hwf Hw Hg). eapply touched_firstn. exact Hin. Qed.
+
+(* ---------- failures inside a stage (the OS refuses one creation) ---------- *)
+Lemma Forall_skipn : forall {A} (P : A -> Prop) n l, Forall P l -> Forall P (skipn n l).
+Proof.
+  intros A P n. induction n as [|n IH]; intros l H; simpl; [exact H|].
+  destruct l as [|x l]; [constructor|]. inversion H; subst. auto.
+Qed.
+
+Lemma io_plan_Forall : forall (Q : fs_op -> Prop) name c,
+  (forall p q, Q (Mkdirs p) -> In q (prefixes p) -> Q (Mkdirs (removelast q))) ->
+  (forall st, Forall Q (error_log_ops c st)) ->
+  forall pl s, Forall (fun so => Q (snd so)) pl -> Forall (fun so => Q (snd so)) (io_ops (io_plan name c s pl)).
+Proof.
+  intros Q name c Hcl Hlog pl. induction pl as [|[st op] pl IH]; intros s H; simpl; [constructor|].
+  inversion H as [|? ? H1 H2]; subst. simpl in H1.
+  destruct (io_cut name s op) as [part|] eqn:Ecut.
+  - destruct (swallows st op); simpl.
+    + change (Forall (fun so : stage * fs_op => Q (snd so)) (skipn 2 pl)). apply Forall_skipn. exact H2.
+    + apply Forall_forall. intros [st' op'] Hin. apply in_map_iff in Hin. destruct Hin as [op'' [E Hin]].
+      inversion E; subst. simpl. apply in_app_or in Hin. destruct Hin as [Hin|Hin].
+      * destruct op as [p t|p t|p|p|p]; simpl in Ecut.
+        -- destruct (base_matches name p); inversion Ecut; subst; contradiction.
+        -- destruct (negb (exists_b s p) && base_matches name p); inversion Ecut; subst; contradiction.
+        -- discriminate.
+        -- destruct (find (fun q => negb (exists_b s q) && base_matches name q) (prefixes p)) as [q|] eqn:Ef;
+             [|discriminate]. inversion Ecut; subst. destruct Hin as [Hin|[]]. subst.
+           apply find_some in Ef. destruct Ef as [Ef _]. eapply Hcl; eauto.
+        -- discriminate.
+      * pose proof (Hlog st') as HL. rewrite Forall_forall in HL. apply HL. exact Hin.
+  - simpl. constructor; [exact H1 | apply IH; exact H2].
+Qed.
+
+Lemma prefixes_removelast_in : forall p q p', In q (prefixes p) -> In p' (prefixes (removelast q)) -> In p' (prefixes p).
+Proof.
+  intros p q p' Hq Hp'. apply In_prefixes in Hq. destruct Hq as [_ Hq]. apply In_prefixes in Hp'. destruct Hp' as [Hn Hp'].
+  apply In_prefixes. split; [exact Hn|].
+  eapply under_trans; [exact Hp'|]. eapply under_trans; [apply under_removelast | exact Hq].
+Qed.
+
+Lemma outside_closed : forall r p q, op_outside r (Mkdirs p) -> In q (prefixes p) -> op_outside r (Mkdirs (removelast q)).
+Proof.
+  intros r p q H Hq. simpl in *. apply In_prefixes in Hq. destruct Hq as [_ Hq].
+  eapply under_false_prefix; [exact H|]. eapply under_trans; [apply under_removelast | exact Hq].
+Qed.
+
+Lemma wf_log_split : forall c, wf_log c = true ->
+  under (root c) (sys_tmp c ++ [s_error_log]) = false /\ under (root c) (sys_tmp c ++ [s_mocks_error_log]) = false.
+Proof.
+  intros c H. unfold wf_log in H. apply andb_true_iff in H. destruct H as [H1 H2].
+  apply negb_true_iff in H1. apply negb_true_iff in H2. auto.
+Qed.
+
+Lemma error_log_outside : forall c st, wf_log c = true -> Forall (op_outside (root c)) (error_log_ops c st).
+Proof.
+  intros c st H. destruct (wf_log_split c H) as [H1 H2].
+  destruct st; simpl; repeat constructor; assumption.
+Qed.
+
+Theorem noforce_untouched_io : forall c name s,
+  wf_tmp c = true -> wf_log c = true -> guard_F10b c = true ->
+  force c = false -> exists_b s (out_dir c) = true ->
+  restrict_root c (fst (generate_io c name s)) = restrict_root c s.
+Proof.
+  intros c name s Hw Hl Hg Hf He. unfold generate_io. cbn [fst]. unfold plan_io, io_run.
+  assert (Hd : diff_mode c s = true) by (unfold diff_mode; rewrite Hf, He; reflexivity).
+  rewrite Hd. unfold restrict_root.
+  change (fun kv : path * entry => under (root c) (fst kv)) with (inr (root c)).
+  apply exec_outside. apply Forall_app. split.
+  - apply (io_plan_Forall (op_outside (root c)) name c).
+    + intros p q. apply outside_closed.
+    + intro st. apply error_log_outside. exact Hl.
+    + pose proof (plan_diff_outside c None Hw Hg) as HF. apply Forall_app in HF. apply HF.
+  - constructor; [|constructor]. simpl. destruct (wf_tmp_split c Hw) as [H1 H2]. split; assumption.
+Qed.
+
+(* semantic placement: whatever the operation touches strictly below the root is allowed *)
+Definition sem_ok (c : config) (op : fs_op) : Prop :=
+  forall s p, In p (op_touched s op) -> sunder (root c) p = true -> allowed c p = true.
+
+Lemma outside_sem_ok : forall c op, op_outside (root c) op -> sem_ok c op.
+Proof.
+  intros c op H s p Hin Hs. pose proof (touched_outside _ _ _ _ H Hin) as Hu.
+  unfold sunder in Hs. rewrite Hu in Hs. discriminate.
+Qed.
+
+Lemma abs_sem_ok : forall c op, abs_ok c op -> sem_ok c op.
+Proof.
+  intros c op [H|[rop [E Hr]]]; [apply outside_sem_ok; exact H|].
+  subst. intros s p Hin Hs. eapply touched_ok; eauto.
+Qed.
+
+Lemma sem_ok_closed : forall c p q, sem_ok c (Mkdirs p) -> In q (prefixes p) -> sem_ok c (Mkdirs (removelast q)).
+Proof.
+  intros c p q H Hq s p' Hin Hs. apply (H s p'); [|exact Hs]. simpl in *.
+  apply filter_In in Hin. destruct Hin as [Hin Hm]. apply filter_In. split; [|exact Hm].
+  eapply prefixes_removelast_in; eauto.
+Qed.
+
+Lemma touched_plan_sem : forall c pl s p, Forall (fun so => sem_ok c (snd so)) pl ->
+  In p (touched s pl) -> sunder (root c) p = true -> allowed c p = true.
+Proof.
+  intros c pl. induction pl as [|[st op] pl IH]; intros s p H Hin Hs; simpl in *; [contradiction|].
+  inversion H as [|? ? H1 H2]; subst. apply in_app_or in Hin. destruct Hin as [Hin|Hin].
+  - apply (H1 s p Hin Hs).
+  - eapply IH; eauto.
+Qed.
+
+Lemma plan_main_sem : forall c d, wf_pkg c = true -> wf_tmp c = true -> guard_F10b c = true ->
+  Forall (fun so => sem_ok c (snd so)) (plan_main c d None).
+Proof.
+  intros c d Hwf Hw Hg. destruct d.
+  - pose proof (plan_diff_outside c None Hw Hg) as HF. apply Forall_app in HF. destruct HF as [HF _].
+    eapply Forall_impl; [|exact HF]. intros so. apply outside_sem_ok.
+  - unfold plan_main. apply Forall_forall. intros [st op] Hso. apply in_flat_map in Hso.
+    destruct Hso as [st' [Hst Hop]]. apply in_map_iff in Hop. destruct Hop as [op' [E Hop]].
+    inversion E; subst. simpl. apply abs_sem_ok.
+    pose proof (effects_direct_ok c st Hwf Hg (before_incl _ _ _ Hst)) as HF.
+    rewrite Forall_forall in HF. apply HF. exact Hop.
+Qed.
+
+Theorem contained_io : forall c name s p,
+  wf_pkg c = true -> wf_tmp c = true -> wf_log c = true -> guard_F10b c = true ->
+  In p (touched s (plan_io c name s)) -> sunder (root c) p = true -> allowed c p = true.
+Proof.
+  intros c name s p Hwf Hw Hl Hg Hin Hs. eapply touched_plan_sem; [|exact Hin|exact Hs].
+  unfold plan_io, io_run. apply Forall_app. split.
+  - apply (io_plan_Forall (sem_ok c) name c).
+    + intros p0 q. apply sem_ok_closed.
+    + intro st. eapply Forall_impl; [|apply error_log_outside; exact Hl]. intro op. apply outside_sem_ok.
+    + apply plan_main_sem; assumption.
+  - destruct (diff_mode c s); [|constructor]. constructor; [|constructor]. simpl. apply outside_sem_ok.
+    simpl. destruct (wf_tmp_split c Hw) as [H1 H2]. split; assumption.
+Qed.
+
+(* a refused operation makes the call raise, unless it is swallowed (F10c) *)
+Theorem io_raises : forall c name s,
+  io_refused c name s = true -> guard_F10c c name s = true -> exists st, snd (generate_io c name s) = FailIO st.
+Proof.
+  intros c name s Hr Hg. unfold io_refused in Hr. unfold guard_F10c in Hg. unfold generate_io. cbn [snd].
+  destruct (io_hit (io_run c name s)) as [st|]; [exists st; reflexivity|].
+  apply negb_true_iff in Hg. congruence.
+Qed.
+
+(* F10c: embedded core, no force, existing tree equal to what would be generated; the OS refuses models/pet.tmp *)
+Definition cfg_F10c : config :=
+  {| root := pR; tmp := pT; cwd := pB; out_pkg := [s_a; s_client]; core_pkg := None; force := false; post := false;
+     tags := [s_pets]; models := [s_pet] |}.
+Definition fs_F10c : fs :=
+  fs0 ++ [(pR ++ [s_a], Dir); (pR ++ [s_a; s_init], File 0); (pR ++ [s_a; s_client], Dir);
+          (pR ++ [s_a; s_client; s_client_py], File 0); (pR ++ [s_a; s_client; s_models], Dir);
+          (pR ++ [s_a; s_client; s_models; s_pet ++ s_dot_py], File 0)].
+Lemma refuted_F10c :
+  wf_pkg cfg_F10c = true /\ wf_tmp cfg_F10c = true /\ wf_log cfg_F10c = true /\ guard_F10b cfg_F10c = true
+  /\ force cfg_F10c = false /\ exists_b fs_F10c (out_dir cfg_F10c) = true
+  /\ guard_F10c cfg_F10c (s_pet ++ s_dot_tmp) fs_F10c = false
+  /\ io_refused cfg_F10c (s_pet ++ s_dot_tmp) fs_F10c = true
+  /\ snd (generate_io cfg_F10c (s_pet ++ s_dot_tmp) fs_F10c) = Returned Ok.
+Proof. repeat split; vm_compute; reflexivity. Qed.
+
+(* non-vacuity of the inner-failure theorems: client.py refused in the direct path -> error log, FailIO Client *)
+Lemma io_nonvacuous :
+  wf_pkg cfg_ok_force = true /\ wf_log cfg_ok_force = true
+  /\ snd (generate_io cfg_ok_force s_client_py fs_ok) = FailIO Client
+  /\ lookup (sys_tmp cfg_ok_force ++ [s_error_log]) (fst (generate_io cfg_ok_force s_client_py fs_ok)) = Some (File 1)
+  /\ snd (generate_io cfg_ok s_mock_client fs_ok) = FailIO Mocks
+  /\ (length (filter (sunder pR) (touched fs_ok (plan_io cfg_ok_force s_client_py fs_ok))) > 30)%nat.
+Proof. repeat split; vm_compute; try reflexivity; lia. Qed.
